@@ -290,6 +290,9 @@ template<class T> static void k_decompose(const In<T>& in,vf::Ctx& c){ TRT const
 	id4(t); t[2*4+1]=p[10]; mul4(M,t,M); id4(t); t[2*4+0]=p[11]; mul4(M,t,M); id4(t); t[1*4+0]=p[12]; mul4(M,t,M);
 	id4(t); t[0]=p[0]; t[5]=p[1]; t[10]=p[2]; mul4(M,t,M);
 	T Mt[16]; for(int i=0;i<16;i++) Mt[i]=(T)M[i];
+	if(in.mode&8){ // perspective row with entries that cancel: x+y+z == 0 exactly (and M[3][3] = 1 so that they survive the normalisation unchanged)
+		static const T PAT[4][3]={{(T)0.25,(T)-0.25,(T)0},{(T)0.5,(T)0.25,(T)-0.75},{(T)-0.5,(T)0.5,(T)0},{(T)0.125,(T)0.125,(T)-0.25}}; int k=(in.mode>>4)&3, rot=(in.mode>>6)%3;
+		for(int i=0;i<3;i++) Mt[((i+rot)%3)*4+3]=PAT[k][i]; Mt[15]=(T)1; }
 	W m33=Mt[15]; if(!(w_abs(m33)>=W(0.125)&&w_abs(m33)<=8)) SKIP("M[3][3]-out-of-domain");
 	W A[16]; for(int i=0;i<16;i++) A[i]=(W)Mt[i]/m33;
 	W pm=w_max(w_abs(A[3]),w_max(w_abs(A[7]),w_abs(A[11]))); bool persp= pm!=0; if(persp && !(pm>=W(1e-3))) SKIP("perspective-partition-near-the-epsilon-threshold");
@@ -465,7 +468,7 @@ template<class T> static void run_type(const char* label,Ops o,u64 n){
 				if(r.below(6)==0) p[7]=p[8]=p[9]=0; else for(int i=0;i<3;i++) p[7+i]=(T)r.uniform(-4,4)*(T)(r.below(4)==0? 8: 1);
 				int km=(int)r.below(4); for(int i=0;i<3;i++) p[10+i]=0; if(km==1) p[10+r.below(3)]=(T)r.uniform(-1.5,1.5); else if(km>=2) for(int i=0;i<3;i++) p[10+i]=(T)r.uniform(-1,1);
 				if(r.coin()){ for(int i=0;i<3;i++) p[13+i]=(T)r.uniform(-0.5,0.5); if(r.below(4)==0) p[13+r.below(3)]=0; }
-				if(r.below(10)<7){ in.mode=1; in.m[0]=1; } else { in.mode=0; in.m[0]=(T)r.uniform(0.5,2); } }
+				if(r.below(10)<7){ in.mode=1; in.m[0]=1; } else { in.mode=0; in.m[0]=(T)r.uniform(0.5,2); } if(r.below(8)==0) in.mode|= 8|((int)r.below(4)<<4)|((int)r.below(3)<<6); }
 			RUN(decomp,in);
 		}
 #undef RUN
